@@ -192,7 +192,8 @@ def server_half(c):
     inv = ["ExactlyOne", "TypeAllowed", "NeverStops"]
     c.mc_holds("SftpServerProto", cfg_text(constants=base, invariants=inv), name="server loop, repaired")
     # one handle token is enough to reach every handle class (file / dir / stale / junk) in three requests
-    r = c.mc_holds("SftpServerProto", cfg_text(constants=dict(base, MaxHandles=1), invariants=inv + ["Emit"]),
+    r = c.mc_holds("SftpServerProto", cfg_text(constants=dict(base, MaxHandles=1), invariants=inv + ["Emit"],
+                                               action_constraint="GenShape"),
                    name="server loop, case generation", workers=1)
     cases = {tuple(x[1:4]) + (tuple(sorted(x[4])),) for x in r.printed("CASE")}
     if len(cases) < 40:
